@@ -67,4 +67,12 @@ def run(rep, fb, tier):
     _l3.rule_cond_unsigned(rep, fb)
     _bd.rule_exception_unthrown(rep, fb)
     _l3.rule_narrow_accumulator(rep, fb)
+    _l3.rule_union_tag_count(rep, fb)
+    _l3.rule_range_step(rep, fb)
+    _l3.rule_offsets_first(rep, fb)
+    _l3.rule_child_accessor_bounds(rep, fb)
+    _l3.rule_kernel_one_sided(rep, fb)
+    _l3.rule_extent_zero(rep, fb)
+    _l3.rule_count_product(rep, fb)
+    __import__("vf.rules.jsonrules", fromlist=["x"]).rule_json_parameters(rep, fb)
     rep.units = fb.units
